@@ -3,11 +3,13 @@ package c19
 import (
 	"bytes"
 	"crypto"
+	"crypto/rand"
 	"crypto/tls"
 	"crypto/x509"
 	"crypto/x509/pkix"
 	"encoding/pem"
 	"fmt"
+	"math/big"
 	"os"
 	"path/filepath"
 	"strings"
@@ -49,6 +51,48 @@ func (nopObserver) Add(certificate.Supplier) {}
 func (nopObserver) Start() error             { return nil }
 
 type keyed interface{ Keys() []jose.JSONWebKey }
+
+// crossIssued returns the PEM of a certificate for the key leafPEM issued by "A" and of the CA
+// certificate "A" issued by that very leaf.
+func crossIssued(leafPEM, caPEM []byte) ([]byte, error) {
+	leafKey, err := parseKey(leafPEM)
+	if err != nil {
+		return nil, err
+	}
+
+	caKey, err := parseKey(caPEM)
+	if err != nil {
+		return nil, err
+	}
+
+	from, to := time.Now().Add(-time.Minute), time.Now().Add(time.Hour)
+	caTmpl := &x509.Certificate{
+		SerialNumber: big.NewInt(1), Subject: pkix.Name{CommonName: "verif circle A"}, NotBefore: from, NotAfter: to,
+		IsCA: true, BasicConstraintsValid: true, KeyUsage: x509.KeyUsageCertSign,
+	}
+	leafTmpl := &x509.Certificate{
+		SerialNumber: big.NewInt(2), Subject: pkix.Name{CommonName: "verif circle L"}, NotBefore: from, NotAfter: to,
+		KeyUsage: x509.KeyUsageDigitalSignature,
+	}
+
+	leafDER, err := x509.CreateCertificate(rand.Reader, leafTmpl, caTmpl, leafKey.Public(), caKey)
+	if err != nil {
+		return nil, err
+	}
+
+	leaf, err := x509.ParseCertificate(leafDER)
+	if err != nil {
+		return nil, err
+	}
+
+	caDER, err := x509.CreateCertificate(rand.Reader, caTmpl, leaf, caKey.Public(), leafKey)
+	if err != nil {
+		return nil, err
+	}
+
+	return append(pem.EncodeToMemory(&pem.Block{Type: "CERTIFICATE", Bytes: leafDER}),
+		pem.EncodeToMemory(&pem.Block{Type: "CERTIFICATE", Bytes: caDER})...), nil
+}
 
 func parseKey(pemBytes []byte) (crypto.Signer, error) {
 	blk, _ := pem.Decode(pemBytes)
@@ -195,6 +239,14 @@ func (d *Driver) keyInputs(entry string, ca *testsupport.CA, withCert bool) ([]i
 
 		twiceAll := append(append(bytes.Clone(d.fix["p256-a"]), chain...), chain...)
 		out = append(out, input{id: entry + "/cert/chain-listed-twice", class: "cert-duplicates", data: twiceAll})
+	}
+
+	// two certificates naming each other as issuer (no key identifiers, so the names decide)
+	if cyc, err := crossIssued(d.fix["p256-a"], d.fix["p384-a"]); err == nil {
+		out = append(out, input{id: entry + "/cert/issuers-in-a-circle", class: "cert-cycle",
+			data: append(bytes.Clone(d.fix["p256-a"]), cyc...)})
+	} else {
+		return nil, nil, err
 	}
 
 	garbage := base64ish(d.fix["p256-a"])
